@@ -307,6 +307,13 @@ def run_A(cf):
         entry = "ENone" if h is None else "EUser" if h is _user_hash else "EGen" if is_generated(h) else "?"
     if entry == "?":
         return ("other", "unclassifiable __hash__ entry")
+    if entry == "EGen" and next(_tie_tick) % _TIE_EVERY[0] == 0:
+        # the class as the B-model sees it: inherited bx (if the base is an attrs class) then x; the frozen
+        # flag handed to _make_hash_script is is_frozen
+        fl = (["(F None EqT)"] if len(cls.__attrs_attrs__) == 2 else []) + \
+             ["(F None %s)" % ("(EqK K0)" if cf.get("xkey") else "EqT")]
+        _collect_script(cls, "(Cl 0 0%%Z %s %s %s %s true)" % (
+            lst(fl), b(cf["cache"]), b(_is_frozen_cf(cf)), b(_slots_cf(cf))))
     try:
         inst = cls()
         if "__init__" not in d and not cf["oinit"] and hasattr(inst, "__attrs_init__"):
@@ -372,10 +379,21 @@ def _spec_kind(cf):
     return "generated" if (fz or bs[1]) else "unhashable"
 
 
-def _frozen_dict(cf):
+def _is_frozen_cf(cf):
     fz = (cf["api"] == "F") if cf["frozen"] is None else cf["frozen"]
-    sl = (cf["api"] != "S") if cf["sl"] is None else cf["sl"]
-    return bool((fz or _BASE_SPECS[cf["base"]][1]) and not sl)
+    return bool(fz or _BASE_SPECS[cf["base"]][1])
+
+
+def _slots_cf(cf):
+    return bool((cf["api"] != "S") if cf["sl"] is None else cf["sl"])
+
+
+def _frozen_dict(cf):
+    return _is_frozen_cf(cf) and not _slots_cf(cf)
+
+
+_tie_tick = itertools.count()
+_TIE_EVERY = [1]
 
 
 _DEFAULT_CF = dict(api="S", ad=None, ax=None, sl=None, cmp=None, eq=None, hash=None, unsafe=None, frozen=None,
@@ -592,6 +610,7 @@ class _Labels:
 
 def run_M(cd, vecs):
     cls = build_B(cd)
+    _collect_script(cls, enc_cls(cd))
     insts = [_inst(cls, v) for v in vecs]
     lab = _Labels()
     labels = [lab(hash(x)) for x in insts]
@@ -805,6 +824,136 @@ def gen_B(tier, rng):
     return cases
 
 
+
+# --------------------------------------------------------------------------------------
+# script-level tie (supplementary evidence, never an alarm): the source text of the real generated
+# __hash__, read by a small fail-closed ast reader into the model's hscript term
+
+_script_terms = []          # (coq term of the script_case, source text)
+_script_unrecognised = []
+_CACHE = "_attrs_cached_hash"
+
+
+class _Unrecognised(Exception):
+    pass
+
+
+def _need(cond, what):
+    if not cond:
+        raise _Unrecognised(what)
+
+
+def _is_self_attr(node, attr=None):
+    return (isinstance(node, ast.Attribute) and isinstance(node.value, ast.Name) and node.value.id == "self"
+            and (attr is None or node.attr == attr))
+
+
+def _parse_hash_call(node, index):
+    """hash((<int literal>, e1, .., en)) -> list of helem terms"""
+    _need(isinstance(node, ast.Call) and isinstance(node.func, ast.Name) and node.func.id == "hash"
+          and len(node.args) == 1 and not node.keywords and isinstance(node.args[0], ast.Tuple), "hash((...)) call")
+    elts = node.args[0].elts
+    _need(len(elts) >= 1, "salt element")
+    salt = elts[0]
+    if isinstance(salt, ast.UnaryOp) and isinstance(salt.op, ast.USub):
+        salt = salt.operand
+    _need(isinstance(salt, ast.Constant) and type(salt.value) is int, "salt is an integer literal")
+    out = []
+    for e in elts[1:]:
+        if _is_self_attr(e):
+            _need(e.attr in index, "field name " + e.attr)
+            out.append("HField %d" % index[e.attr])
+        else:
+            _need(isinstance(e, ast.Call) and isinstance(e.func, ast.Name) and len(e.args) == 1 and not e.keywords
+                  and _is_self_attr(e.args[0]) and e.func.id == "__attr_key_" + e.args[0].attr
+                  and e.args[0].attr in index, "keyed element")
+            out.append("HKeyed %d" % index[e.args[0].attr])
+    return out
+
+
+def parse_hash_source(src, names):
+    """Source text of a generated __hash__ -> Coq term of type hscript.  Raises _Unrecognised."""
+    import textwrap
+    index = {n: i for i, n in enumerate(names)}
+    try:
+        tree = ast.parse(textwrap.dedent(src))
+    except SyntaxError:
+        raise _Unrecognised("does not parse")
+    _need(len(tree.body) == 1 and isinstance(tree.body[0], ast.FunctionDef), "one function definition")
+    fn = tree.body[0]
+    a = fn.args
+    _need(fn.name == "__hash__" and not fn.decorator_list and not a.posonlyargs and not a.vararg and not a.kwarg
+          and not a.defaults and [x.arg for x in a.args] == ["self"], "def __hash__(self ...)")
+    wrapper = False
+    if a.kwonlyargs:
+        _need(len(a.kwonlyargs) == 1 and a.kwonlyargs[0].arg == "_cache_wrapper" and a.kw_defaults[0] is not None
+              and ast.unparse(a.kw_defaults[0]) == "__import__('attr._make')._make._CacheHashWrapper",
+              "_cache_wrapper default argument")
+        wrapper = True
+    body = fn.body
+    if len(body) == 1:
+        _need(isinstance(body[0], ast.Return), "return statement")
+        return "(HS %s StReturn %s)" % (b(wrapper), lst(_parse_hash_call(body[0].value, index)))
+    _need(len(body) == 2 and isinstance(body[0], ast.If) and isinstance(body[1], ast.Return), "if + return")
+    test = body[0].test
+    _need(isinstance(test, ast.Compare) and _is_self_attr(test.left, _CACHE) and len(test.ops) == 1
+          and isinstance(test.ops[0], ast.Is) and isinstance(test.comparators[0], ast.Constant)
+          and test.comparators[0].value is None and not body[0].orelse and len(body[0].body) == 1,
+          "if self._attrs_cached_hash is None:")
+    _need(_is_self_attr(body[1].value, _CACHE), "return self._attrs_cached_hash")
+    st = body[0].body[0]
+    if isinstance(st, ast.Assign):
+        _need(len(st.targets) == 1 and _is_self_attr(st.targets[0], _CACHE), "self._attrs_cached_hash = ...")
+        store, val = "StAssign", st.value
+    else:
+        _need(isinstance(st, ast.Expr) and isinstance(st.value, ast.Call)
+              and ast.unparse(st.value.func) == "object.__setattr__" and len(st.value.args) == 3
+              and not st.value.keywords and isinstance(st.value.args[0], ast.Name) and st.value.args[0].id == "self"
+              and isinstance(st.value.args[1], ast.Constant) and st.value.args[1].value == _CACHE,
+              "object.__setattr__(self, '_attrs_cached_hash', ...)")
+        store, val = "StSetattr", st.value.args[2]
+    _need(isinstance(val, ast.Call) and isinstance(val.func, ast.Name) and val.func.id == "_cache_wrapper"
+          and len(val.args) == 1 and not val.keywords, "_cache_wrapper(hash(...))")
+    return "(HS %s %s %s)" % (b(wrapper), store, lst(_parse_hash_call(val.args[0], index)))
+
+
+def _collect_script(cls, cls_term):
+    """Reads the real generated __hash__ of `cls` (if it has one of its own) for the script-level tie."""
+    import inspect
+    fn = cls.__dict__.get("__hash__")
+    if not is_generated(fn):
+        return
+    try:
+        src = inspect.getsource(fn)
+        term = parse_hash_source(src, [a_.name for a_ in cls.__attrs_attrs__])
+    except _Unrecognised as e:
+        _script_unrecognised.append("%s\n%s" % (e, src))
+        return
+    except Exception as e:
+        _script_unrecognised.append("source unavailable: %s: %s" % (type(e).__name__, e))
+        return
+    _script_terms.append(("(SC %s %s)" % (cls_term, term), src))
+
+
+def script_tie():
+    if not _script_terms and not _script_unrecognised:
+        return {"script_tie": "no classes"}
+    bad = vlib.run_cases(PROP, HEADER, "script_case", "script_case_ok", [t for t, _ in _script_terms], tag="script")
+    res = {"script_tie": {"classes_parsed": len(_script_terms), "equal": len(_script_terms) - len(bad),
+                          "different": len(bad), "unrecognised": len(_script_unrecognised)}}
+    if bad:
+        t, src = _script_terms[bad[0]]
+        res["script_tie"]["first_difference"] = {
+            "real_source": src, "case": t,
+            "model_script": vlib.eval_in_coq(PROP, HEADER, "script_model_of %s" % t)[:2000]}
+    if _script_unrecognised:
+        res["script_tie"]["first_unrecognised"] = _script_unrecognised[0][:800]
+    if bad or _script_unrecognised:
+        print("NOTE: script-level tie: of %d real __hash__ sources %d differ from the model's script, %d have an "
+              "unrecognised shape (supplementary evidence, not a verdict; see evidence/C04.json)"
+              % (len(_script_terms) + len(_script_unrecognised), len(bad), len(_script_unrecognised)))
+    return res
+
 # --------------------------------------------------------------------------------------
 # driver interface
 
@@ -820,6 +969,9 @@ def generate(tier, seed):
     rng = random.Random(seed)
     lc_before = set(linecache.cache)
     _syn_module()
+    _script_terms.clear()
+    _script_unrecognised.clear()
+    _TIE_EVERY[0] = 1 if tier == "quick" else 4
     try:
         cases = [mk_A(cf) for cf in gen_A(tier, rng)]
         cases += gen_B(tier, rng)
@@ -833,9 +985,11 @@ def extra(tier, seed):
                             "attrs base class %r could not be built: %s" % (k, msg),
                             {"corpus": "c04_bases_build"})
            for k, msg in _base_errors[:5]]
-    return out, {"runtime_observations": 0,
+    cov_tie = script_tie()
+    cov_tie.update({"runtime_observations": 0,
                  "info_twin_classes_hash_differently": "%d of %d same-shape class pairs (type salt; not asserted)"
-                 % (_twin["differ"], _twin["pairs"])}
+                 % (_twin["differ"], _twin["pairs"])})
+    return out, cov_tie
 
 
 def rerun(inp):
